@@ -17,7 +17,7 @@
           step (lemma add_change_split in FeeProofs.v: add_change = add_change_pre followed by the top-up).
 
    API    need_w, need, sufficient, sufficientb, policy_ok, fld0, binding, placeholder_w,
-          asset_branch_pre, add_change_pre, finish_change, slack_ok, fee_request_honoured, build_tx6,
+          asset_branch_pre, add_change_pre, finish_change, slack_ok, validate_fee_legacy, build_tx_legacy,
           judge inputs/verdict: ledger_min_fee, tx_report, judge_tx, verdict *)
 From CSL Require Import Base.Prelude Base.U64 Cbor.Head Num.Value Deposits.Deposits Builder.Totals Builder.Change
   Fees.Rational Fees.Fees Fees.TierSpec FeeSuff.FeeModel.
@@ -127,23 +127,23 @@ Section Pre.
   (* the last step *)
   Definition finish_change (bg : bool * option value) : @M O bool :=
     match snd bg with
-    | Some t => doM (if value_is_zero t then ret tt else top_up_last t) in ret (fst bg)
+    | Some t => doM (if value_is_zero t then ret tt else top_up_last orc t) in ret (fst bg)
     | None => ret (fst bg)
     end.
 End Pre.
 
-(* build_tx since /repo 0fc161c ("fix: build_tx fails when the stored fee does not honour the fee request"):
-   validate_fee first compares the fee with the request (a set_fee / set_min_fee issued after add_change does not
-   change the stored fee), then runs the guard modelled by Change.validate_fee.
-   [build_tx_legacy] = Change.build_tx is the code before that repair. *)
-Definition fee_request_honoured (s : state) : bool :=
-  match get_fee_if_set s, s_fee_request s with
-  | Some F, FeeExactly x => F =? x
-  | Some F, FeeNotLess r => r <=? F
-  | _, _ => true
-  end.
-Definition build_tx6 {O : Type} (orc : @oracle O) : @M O tx_body :=
-  bindM get (fun s => if fee_request_honoured s then build_tx orc else lift Err).
+(* build_tx BEFORE /repo 0fc161c ("fix: build_tx fails when the stored fee does not honour the fee request"): validate_fee
+   only compared the stored fee with the estimate; a set_fee / set_min_fee issued after add_change (which does not change
+   the stored fee) went unnoticed.  Change.validate_fee / Change.build_tx are the repaired code; these two are kept for the
+   refutation lemma and the regression corpus. *)
+Definition validate_fee_legacy {O : Type} (orc : @oracle O) : @M O unit :=
+  bindM get (fun s =>
+    match get_fee_if_set s with
+    | Some fee => bindM (askF orc s) (fun mf => if fee <? mf then lift Err else ret tt)
+    | None => lift Err
+    end).
+Definition build_tx_legacy {O : Type} (orc : @oracle O) : @M O tx_body :=
+  bindM (validate_fee_legacy orc) (fun _ => bindM get (fun s => bindM (lift (validate_balance s)) (fun _ => build orc))).
 
 (* outputs + fee field of the final state fit into outputs of the priced state + placeholder.
    (false only when a change output was added or topped up: the exact and burn paths change no output) *)
